@@ -14,6 +14,11 @@
 //	                      h<k>   the same on path /h<k> (its own endpoint)
 //	                      o<k>   nested cc.DoObserve (20 s deadline)
 //	                      p      nested cc.Ping (10 s deadline)
+//	                      a      the handler answers the request (2.05; the reply is cached under the request's message ID)
+//	arrivem:<m>:<prog>:<con|non>:+<d>   the same with a confirmable / non-confirmable request whose message ID is the ID of the
+//	                    last message the connection itself sent plus d (the peer's ID space happens to meet ours)
+//	resp2:<k>           the peer answers nested exchange k twice, back to back (stream: both frames in one write): the first is the
+//	                    response, the second (payload "dup") belongs to nobody and reaches the handler, logged as request 7000+k
 //	burst:<m1>-<m2>-…   several requests with returning handlers, back to back (no idle point in between)
 //	call:<prog>         the same program run by the application outside any handler
 //	watch:<k>:<prog>    the application registers observation k (cc.DoObserve, 20 s deadline, outside any handler); its callback
@@ -97,6 +102,10 @@ type world struct {
 	lastPing    sentMsg
 	feed        chan []byte
 	padNext     int
+	lastOwn     int32 // message ID of the last message the connection sent under an ID of its own
+	ackedResp   map[int32]bool
+	resp2       map[int]bool // exchanges answered twice (resp2)
+	autoAcks    int
 	notes       map[int]int // observation -> notifications sent so far
 	fed         int
 	handed      int
@@ -139,7 +148,7 @@ func errName(err error) string {
 func (w *world) runProg(prog string) {
 	for _, st := range strings.Split(prog, "+") {
 		switch {
-		case st == "r" || st == "":
+		case st == "r" || st == "" || st == "a":
 		case st[0] == 's':
 			ms, _ := strconv.Atoi(st[1:])
 			time.Sleep(time.Duration(ms) * time.Millisecond)
@@ -217,7 +226,24 @@ func (w *world) watch(k int, prog string) {
 	w.log(fmt.Sprintf("n%d:%s:%d", k, errName(err), time.Since(start).Milliseconds()))
 }
 
-func (w *world) handler(r *pool.Message) {
+func (w *world) handler(r *pool.Message, answer func()) {
+	if r.Code() == codes.Content {
+		// of the two messages `resp2:<k>` sends under the token of exchange k, one is the call's response and the other one
+		// reaches this handler.  (Which is which is not fixed: a confirmable nested request asks for a replacement loop twice,
+		// and the second request can replace the loop that is just dispatching the first message; the new loop may then hand the
+		// second message to the call first.)
+		if len(r.Token()) == 3 && r.Token()[0] == 0xB0 {
+			k := int(r.Token()[1])<<8 | int(r.Token()[2])
+			w.mu.Lock()
+			twice := w.resp2[k]
+			w.mu.Unlock()
+			if twice {
+				w.log(fmt.Sprintf("s%d", 7000+k))
+				w.log(fmt.Sprintf("e%d", 7000+k))
+			}
+		}
+		return
+	}
 	if r.Code() == codes.Empty && r.MessageID() >= 30000 && r.MessageID() < 31000 {
 		// an empty message of the peer that the message layer handed up
 		w.log(fmt.Sprintf("s%d", 8000+int(r.MessageID())-30000))
@@ -236,6 +262,9 @@ func (w *world) handler(r *pool.Message) {
 	prog := w.progs[tok]
 	w.mu.Unlock()
 	w.log(fmt.Sprintf("s%d", m))
+	if strings.Contains("+"+prog+"+", "+a+") {
+		answer()
+	}
 	w.runProg(prog)
 	w.log(fmt.Sprintf("e%d", m))
 }
@@ -294,6 +323,15 @@ func (w *world) build1(typ message.Type, code codes.Code, tok message.Token, mid
 
 func (w *world) absorb() {
 	for _, s := range w.sent() {
+		if w.udp && (s.typ == message.Confirmable || s.typ == message.NonConfirmable) && s.mid < 20000 {
+			w.lastOwn = s.mid
+		}
+		if w.udp && s.typ == message.Confirmable && s.code >= codes.Created && !w.ackedResp[s.mid] {
+			// the connection answered one of the peer's requests with a confirmable response: the peer acknowledges it
+			w.ackedResp[s.mid] = true
+			w.push(w.build1(message.Acknowledgement, codes.Empty, nil, s.mid, nil, -1))
+			w.autoAcks++
+		}
 		if s.code >= codes.GET && s.code <= codes.DELETE {
 			w.last[s.tok] = s
 		}
@@ -327,6 +365,38 @@ func (w *world) apply(f []string, obsExch map[int]bool) {
 		mid := w.nextMid
 		w.nextMid++
 		w.push(w.build(message.NonConfirmable, codes.GET, reqTok(m), mid, func(x *pool.Message) { _ = x.SetPath("/req") }))
+	case f[0] == "arrivem" && len(f) == 5:
+		time.Sleep(time.Millisecond)
+		m := atoi(f[1])
+		w.mu.Lock()
+		w.progs[lp.Hex(reqTok(m))] = f[2]
+		w.mu.Unlock()
+		typ := message.NonConfirmable
+		if f[3] == "con" {
+			typ = message.Confirmable
+		}
+		mid := w.lastOwn + int32(atoi(strings.TrimPrefix(f[4], "+")))
+		w.push(w.build(typ, codes.GET, reqTok(m), mid, func(x *pool.Message) { _ = x.SetPath("/req") }))
+	case f[0] == "resp2" && len(f) == 2:
+		k := atoi(f[1])
+		lastReq, ok := w.last[lp.Hex(nestTok(k))]
+		if !ok {
+			w.log(fmt.Sprintf("early%d", k))
+			return
+		}
+		w.mu.Lock()
+		w.resp2[k] = true
+		w.mu.Unlock()
+		first := w.build(message.Acknowledgement, codes.Content, nestTok(k), lastReq.mid, nil)
+		mid := w.nextMid
+		w.nextMid++
+		second := w.build(message.NonConfirmable, codes.Content, nestTok(k), mid, func(x *pool.Message) { x.SetBody(bytes.NewReader([]byte("dup"))) })
+		if w.udp {
+			w.push(first)
+			w.push(second)
+		} else {
+			w.push(append(append([]byte(nil), first...), second...))
+		}
 	case f[0] == "burst" && len(f) == 2:
 		// several requests with returning handlers put on the wire back to back (no idle point in between)
 		time.Sleep(time.Millisecond)
@@ -449,6 +519,11 @@ func (w *world) run(ops []string, inject func([]byte) error) string {
 		}()
 		synctest.Wait()
 		w.absorb()
+		for i := 0; w.autoAcks > 0 && i < 4; i++ {
+			w.autoAcks = 0
+			synctest.Wait()
+			w.absorb()
+		}
 		w.mu.Lock()
 		ev := append([]string(nil), w.events...)
 		w.events = nil
@@ -473,7 +548,7 @@ func (w *world) run(ops []string, inject func([]byte) error) string {
 }
 
 func newWorld(udp bool) *world {
-	return &world{udp: udp, progs: map[string]string{}, last: map[string]sentMsg{}, feed: make(chan []byte, 4096), nextMid: 40000, notes: map[int]int{}}
+	return &world{udp: udp, progs: map[string]string{}, last: map[string]sentMsg{}, feed: make(chan []byte, 4096), nextMid: 40000, notes: map[int]int{}, lastOwn: 100, ackedResp: map[int32]bool{}, resp2: map[int]bool{}}
 }
 
 func runUDP(t *testing.T, queue int, limit, eplimit int64, ops []string) (out string) {
@@ -485,7 +560,9 @@ func runUDP(t *testing.T, queue int, limit, eplimit int64, ops []string) (out st
 			cfg.ReceivedMessageQueueSize = queue
 			cfg.TransmissionNStart = 1000
 			cfg.GetMID = func() int32 { return 0xffff/2 + 100 }
-			cfg.Handler = func(_ *responsewriter.ResponseWriter[*udpclient.Conn], r *pool.Message) { w.handler(r) }
+			cfg.Handler = func(rw *responsewriter.ResponseWriter[*udpclient.Conn], r *pool.Message) {
+				w.handler(r, func() { _ = rw.SetResponse(codes.Content, message.TextPlain, bytes.NewReader([]byte("ok"))) })
+			}
 		}})
 		w.cc = cc
 		w.observe = func(req *pool.Message) error {
@@ -522,7 +599,9 @@ func runTCP(t *testing.T, cache int, queue int, limit, eplimit int64, ops []stri
 			if cache > 0 {
 				cfg.ConnectionCacheSize = uint16(cache)
 			}
-			cfg.Handler = func(_ *responsewriter.ResponseWriter[*tcpclient.Conn], r *pool.Message) { w.handler(r) }
+			cfg.Handler = func(rw *responsewriter.ResponseWriter[*tcpclient.Conn], r *pool.Message) {
+				w.handler(r, func() { _ = rw.SetResponse(codes.Content, message.TextPlain, bytes.NewReader([]byte("ok"))) })
+			}
 		}})
 		if err != nil {
 			out = "conn-error"
